@@ -81,10 +81,19 @@ class State:
         s.notes = []
         s.choices = []
         s.depth_max = 0
+        s.threads = None      # worker threads of a parallel region: list of [frames, done, skip]; s.frames is the current one's stack
+        s.cur = 0; s.master = None; s.preempts = 0
     def fork(s):
         t = State.__new__(State)
         t.mem = dict(s.mem); t.owned = set(); s.owned = set()
-        t.pc = s.pc[:]; t.frames = [f.clone() for f in s.frames]
+        t.pc = s.pc[:]
+        if s.threads is None:
+            t.frames = [f.clone() for f in s.frames]; t.threads = None; t.master = None
+        else:
+            t.threads = [[[f.clone() for f in th[0]], th[1], th[2]] for th in s.threads]
+            t.frames = t.threads[s.cur][0]
+            t.master = [f.clone() for f in s.master]
+        t.cur = s.cur; t.preempts = s.preempts
         t.next_obj = s.next_obj; t.steps = s.steps; t.syms = s.syms[:]; t.model = s.model; t.conc = dict(s.conc)
         t.nallocs = s.nallocs; t.failed_alloc = s.failed_alloc; t.fault_alloc = s.fault_alloc
         t.env = dict(s.env); t.obs = s.obs[:]; t.notes = s.notes[:]; t.choices = s.choices[:]; t.depth_max = s.depth_max
@@ -130,6 +139,10 @@ class Engine:
         s.const_arrays = {}
         s.concretisations = {}
         s.logging = False
+        s.mt = False          # multi-threaded region active: accesses to watched (conflicting) objects are preemption points
+        s.mt_record = None    # access recording pass: {oid: [(iter, lo, hi, is_write)]}
+        s.mt_watch = {}       # oid -> list of (lo, hi) byte ranges with cross-iteration conflicts
+        s.max_preempts = 1
         s.crc_memo = {}
         s.on_path_end = None
         import models
@@ -499,6 +512,7 @@ class Engine:
         return z3.Concat(*parts) if n > 1 else parts[0]
 
     def load(s, st, ptr, n):
+        if s.mt: s.mt_access(st, ptr, n, False)
         o, off = s.resolve(st, ptr, n, 'read')
         if o.arr is not None:
             return s.arr_load(o, off if type(off) is int else off[1], n)
@@ -562,6 +576,7 @@ class Engine:
         return z3.Concat(*parts) if n > 1 else parts[0]
 
     def store(s, st, ptr, val, n):
+        if s.mt: s.mt_access(st, ptr, n, True)
         o, off = s.resolve(st, ptr, n, 'write')
         if o.ro: raise Violation('write-to-const', "write to constant object %s" % o.name, s.model_dict(st))
         o = st.wobj(ptr.obj)
@@ -598,6 +613,7 @@ class Engine:
     def read_bytes(s, st, ptr, n, what='read'):
         """raw cells of n bytes (n concrete)"""
         if n == 0: return []
+        if s.mt: s.mt_access(st, ptr, n, False)
         o, off = s.resolve(st, ptr, n, what)
         if type(off) is not int:
             off = s.concretize(st, off[1], 'buffer offset', 16, representative=True)
@@ -608,6 +624,7 @@ class Engine:
     def write_bytes(s, st, ptr, cells, what='write'):
         n = len(cells)
         if n == 0: return
+        if s.mt: s.mt_access(st, ptr, n, True)
         o, off = s.resolve(st, ptr, n, what)
         if o.ro: raise Violation('write-to-const', "write to constant object %s" % o.name, s.model_dict(st))
         if type(off) is not int:
@@ -827,6 +844,67 @@ class Engine:
         if len(st.frames) > st.depth_max: st.depth_max = len(st.frames)
         s.fn_called.add(callee)
 
+    # ------------------------------------------------------------------ worker threads of a parallel region (C07)
+    def mt_access(s, st, ptr, n, is_write):
+        """called before every memory access while a parallel region is modelled.
+        recording pass: remember which loop iteration touched which bytes; exploration pass: an access to bytes on which two
+        iterations conflict is a preemption point (bounded number of preemptions per path)."""
+        oid = ptr.obj; off = ptr.off
+        if type(off) is not int: return
+        if s.mt_record is not None:
+            if oid < s.mt_region_first_obj:
+                s.mt_record.setdefault(oid, []).append((st.env.get('omp_cur_iter', -1), off, off + n, is_write, st.env.get('in_critical', 0)))
+            return
+        rng = s.mt_watch.get(oid)
+        if not rng or st.threads is None or st.env.get('in_critical'): return
+        for lo, hi in rng:
+            if off < hi and off + n > lo:
+                s.preempt_point(st); return
+
+    def preempt_point(s, st):
+        """fork a state in which the OTHER worker runs from here (the current instruction is re-executed when this worker resumes)"""
+        if st.threads is None or st.preempts >= s.max_preempts: return
+        th = st.threads[st.cur]
+        fr = st.frames[-1]
+        here = (id(fr.fn), fr.bi, fr.ip)
+        if th[2] == here:
+            th[2] = None; return            # resumed after having been preempted right here
+        others = [i for i, t in enumerate(st.threads) if i != st.cur and not t[1]]
+        if not others: return
+        st2 = st.fork()
+        st2.preempts += 1
+        t2 = st2.threads[st2.cur]
+        f2 = st2.frames[-1]; f2.ip -= 1
+        t2[2] = (id(f2.fn), f2.bi, f2.ip + 1)
+        st2.cur = others[0]; st2.frames = st2.threads[st2.cur][0]
+        st2.notes.append('preemption #%d: worker %d interrupted in %s before a conflicting access, worker %d runs' % (st2.preempts, st.cur, fr.fn.name, st2.cur))
+        raise_switch = st2
+        s.work.append(raise_switch)
+
+    def thread_finished(s, st):
+        """current worker returned from the microtask: implicit barrier, then the master continues"""
+        st.threads[st.cur][1] = True
+        rest = [i for i, t in enumerate(st.threads) if not t[1]]
+        if rest:
+            st.cur = rest[0]; st.frames = st.threads[st.cur][0]
+            return
+        st.frames = st.master; st.threads = None; st.master = None; st.cur = 0
+        s.mt = bool(s.mt_record is not None)
+
+    def run_nested(s, st, depth):
+        """run st until its frame stack drops below depth (used by the access-recording pass); forks are dropped"""
+        saved = s.work; s.work = []
+        try:
+            frames = st.frames
+            while len(frames) >= depth:
+                fr = frames[-1]; R = fr.R
+                while True:
+                    ins = fr.code[fr.ip]; fr.ip += 1; st.steps += 1
+                    if ins(st, fr, R) is not None: break
+                if st.steps > s.max_steps: break
+        finally:
+            s.work = saved
+
     # ------------------------------------------------------------------ run
     def run(s, entry, setup=None):
         st = State()
@@ -906,9 +984,13 @@ class Engine:
         return " <- ".join("%s:%s" % (f.fn.name, f.fn.labels[f.bi]) for f in reversed(st.frames[-5:]))
 
     def exec_path(s, st):
-        frames = st.frames
         max_steps = s.max_steps
-        while frames:
+        while True:
+            frames = st.frames
+            if not frames:
+                if st.threads is not None:
+                    s.thread_finished(st); continue
+                break
             fr = frames[-1]
             R = fr.R
             n = 0
